@@ -53,6 +53,8 @@ enum Op {
     /// cluster-wide / endpoint-wide change notification (touch every attribute of cluster 0x10 / endpoint 1)
     ChangeCluster,
     ChangeEndpoint,
+    /// the application emits a (subscribed) event
+    Event,
     /// 17 changes on unrelated paths: forces coalescing of the pending-change table
     ChangeManyOther,
     /// one iteration of the reporter loop: remove expired, then report() or else purge
@@ -76,6 +78,8 @@ struct Flight {
     carry: [Option<u32>; 3],
     read1: bool,
     read2: bool,
+    /// event numbers this report carries: (lo, hi] as captured by the report context at its start
+    ev_range: (u64, u64),
     /// the instant the report was started (intervals are measured between report starts)
     start_ms: u64,
 }
@@ -88,6 +92,8 @@ struct SubRef {
     sub_id: u32,
     /// version of each attribute the subscriber has been told (None = nothing yet)
     known: [Option<u32>; 3],
+    /// highest event number the subscriber has been sent
+    known_event: u64,
     last_success_ms: Option<u64>,
     fails_since_success: u32,
 }
@@ -100,6 +106,8 @@ struct Sys {
     flights: [Option<Flight>; NSUB],
     refs: [SubRef; NSUB],
     version: [u32; 3],
+    /// number of the last event emitted (the events watermark the IM passes to the table)
+    events: u64,
     ticks: u8,
     fault: Option<(String, String)>,
     stats_primings_with_change_inside: u64,
@@ -137,6 +145,7 @@ impl Sys {
             flights: [None, None],
             refs: [SubRef::default(), SubRef::default()],
             version: [1, 1, 1],
+            events: 0,
             ticks: 0,
             fault: None,
             stats_primings_with_change_inside: 0,
@@ -176,13 +185,14 @@ impl Sys {
         let Some(buf) = self.pool().get_immediate() else {
             return false;
         };
-        let ctx = self.subs().verif_add(Instant::now(), NonZeroU8::new(1).unwrap(), node_of(k as u8), MIN_INT, MAX_INT, 0, buf, self.bufs());
+        let ctx = self.subs().verif_add(Instant::now(), NonZeroU8::new(1).unwrap(), node_of(k as u8), MIN_INT, MAX_INT, self.events, buf, self.bufs());
         let Some(ctx) = ctx else {
             return false;
         };
         let id = ctx.subscription().ids().id;
-        self.refs[k] = SubRef { live: true, established: false, sub_id: id, known: [None; 3], last_success_ms: None, fails_since_success: 0 };
-        self.flights[k] = Some(Flight { ctx: Some(ctx), kind: Kind::Priming, carry: [None; 3], read1: false, read2: false, start_ms: self.now_ms() });
+        self.refs[k] = SubRef { live: true, established: false, sub_id: id, known: [None; 3], known_event: 0, last_success_ms: None, fails_since_success: 0 };
+        let ev_range = (ctx.max_seen_event_number(), ctx.next_max_seen_event_number());
+        self.flights[k] = Some(Flight { ctx: Some(ctx), kind: Kind::Priming, carry: [None; 3], read1: false, read2: false, ev_range, start_ms: self.now_ms() });
         true
     }
 
@@ -232,6 +242,14 @@ impl Sys {
                     if let Some(v) = f.carry[i] {
                         self.refs[k].known[i] = Some(v);
                     }
+                }
+                let (lo, hi) = f.ev_range;
+                if f.kind == Kind::Report && lo > self.refs[k].known_event {
+                    let known = self.refs[k].known_event;
+                    self.fail("C13:model:events-skipped", format!("subscriber {} has been sent the events up to number {}; the next report carries ({}, {}]: events {}..={} are never sent", k, known, lo, hi, known + 1, lo));
+                }
+                if hi > self.refs[k].known_event || f.kind == Kind::Priming {
+                    self.refs[k].known_event = hi;
                 }
                 self.refs[k].established = true;
                 self.refs[k].last_success_ms = Some(now);
@@ -305,7 +323,7 @@ impl Sys {
         let Some(now) = self.reporter_now else { return false };
         let subs = self.subs();
         let bufs = self.bufs();
-        match subs.verif_report(now, 0, bufs) {
+        match subs.verif_report(now, self.events, bufs) {
             Some(ctx) => {
                 let Some(k) = self.which_sub(&ctx) else {
                     self.fail("C13:model:report-for-unknown-subscriber", "report() returned a context for a subscriber that never subscribed".into());
@@ -326,7 +344,8 @@ impl Sys {
                     self.fail("C13:model:two-reports-in-flight-for-one-subscription", format!("subscriber {}", k));
                     return true;
                 }
-                self.flights[k] = Some(Flight { ctx: Some(ctx), kind: Kind::Report, carry: [None; 3], read1: false, read2: false, start_ms: now_ms });
+                let ev_range = (ctx.max_seen_event_number(), ctx.next_max_seen_event_number());
+                self.flights[k] = Some(Flight { ctx: Some(ctx), kind: Kind::Report, carry: [None; 3], read1: false, read2: false, ev_range, start_ms: now_ms });
             }
             None => {
                 subs.verif_purge_reported_changes();
@@ -382,6 +401,10 @@ impl Sys {
                 self.note_change_inside_priming();
                 true
             }
+            Op::Event => {
+                self.events += 1;
+                true
+            }
             Op::ChangeManyOther => {
                 for j in 0..17u32 {
                     self.subs().verif_notify_attr_changed(2 + (j % 3) as u16, 0x20 + j / 3, j);
@@ -422,7 +445,7 @@ impl Sys {
                 return self.fault.clone();
             }
             let live: Vec<usize> = (0..NSUB).filter(|k| self.refs[*k].live && self.refs[*k].established).collect();
-            let all_known = live.iter().all(|&k| (0..3).all(|i| self.refs[k].known[i] == Some(self.version[i])));
+            let all_known = live.iter().all(|&k| (0..3).all(|i| self.refs[k].known[i] == Some(self.version[i])) && self.refs[k].known_event >= self.events);
             if !all_fail && all_known && round > 0 {
                 return None;
             }
@@ -430,13 +453,13 @@ impl Sys {
                 return None;
             }
             // the deadline the table announces
-            let at = self.subs().verif_next_report_at(0, self.bufs());
+            let at = self.subs().verif_next_report_at(self.events, self.bufs());
             if at == Instant::MAX {
                 if !all_fail && !all_known {
-                    let k = live.iter().copied().find(|&k| (0..3).any(|i| self.refs[k].known[i] != Some(self.version[i]))).unwrap();
+                    let k = live.iter().copied().find(|&k| (0..3).any(|i| self.refs[k].known[i] != Some(self.version[i])) || self.refs[k].known_event < self.events).unwrap();
                     return Some((
                         "C13:model:change-never-reported".into(),
-                        format!("subscriber {} knows {:?} but the attributes are at {:?}, and the table announces no further report", k, self.refs[k].known, self.version),
+                        format!("subscriber {} knows {:?} / events up to {} but the attributes are at {:?} / events at {}, and the table announces no further report", k, self.refs[k].known, self.refs[k].known_event, self.version, self.events),
                     ));
                 }
                 return None;
@@ -466,16 +489,17 @@ impl Sys {
             let k = (0..NSUB).find(|k| self.refs[*k].live && self.refs[*k].established);
             return k.map(|k| ("C13:model:failing-subscription-never-ends".into(), format!("subscriber {} still subscribed after 16 failed reporter rounds; last success {:?}", k, self.refs[k].last_success_ms)));
         }
-        let k = (0..NSUB).find(|&k| self.refs[k].live && self.refs[k].established && (0..3).any(|i| self.refs[k].known[i] != Some(self.version[i])));
+        let k = (0..NSUB).find(|&k| self.refs[k].live && self.refs[k].established && ((0..3).any(|i| self.refs[k].known[i] != Some(self.version[i])) || self.refs[k].known_event < self.events));
         k.map(|k| {
             (
                 "C13:model:change-never-reported".into(),
-                format!("after 16 reporter rounds subscriber {} knows {:?} but the attributes are at {:?}", k, self.refs[k].known, self.version),
+                format!("after 16 reporter rounds subscriber {} knows {:?} / events up to {} but the attributes are at {:?} / events at {}", k, self.refs[k].known, self.refs[k].known_event, self.version, self.events),
             )
         })
     }
 
-    fn key(&self) -> (Vec<(u32, u64, u64, u64, u8)>, Vec<(u16, u32, u32, u64)>, u64, Vec<(bool, bool, [Option<i64>; 3], Option<u64>)>, Vec<Option<(u8, bool, bool, [Option<i64>; 3])>>, u64, u8) {
+    #[allow(clippy::type_complexity)]
+    fn key(&self) -> (Vec<(u32, u64, u64, u64, u8)>, Vec<(u16, u32, u32, u64)>, u64, Vec<(bool, bool, [Option<i64>; 3], Option<u64>)>, Vec<Option<(u8, bool, bool, [Option<i64>; 3])>>, u64, u8, Vec<i64>) {
         let (rows, changes, wm, _) = self.subs().verif_state();
         let now = self.now_ms();
         // versions are kept relative to the current value (what matters is "behind or not")
@@ -488,6 +512,14 @@ impl Sys {
             self.flights.iter().map(|f| f.as_ref().map(|f| (f.kind as u8, f.read1, f.read2, [rel(f.carry[0], 0), rel(f.carry[1], 1), rel(f.carry[2], 2)]))).collect(),
             now,
             self.ticks,
+            // event marks relative to the events watermark: table rows, flights, references
+            self.subs()
+                .verif_event_marks()
+                .iter()
+                .map(|(_, m)| self.events as i64 - *m as i64)
+                .chain(self.flights.iter().flat_map(|f| f.as_ref().map(|f| [self.events as i64 - f.ev_range.0 as i64, self.events as i64 - f.ev_range.1 as i64]).unwrap_or([-1, -1])))
+                .chain(self.refs.iter().map(|r| self.events as i64 - r.known_event as i64))
+                .collect(),
         )
     }
 }
@@ -500,6 +532,7 @@ fn ops_for(tier: Tier) -> Vec<Op> {
         Op::Read2(0),
         Op::DoneOk(0),
         Op::Change(0),
+        Op::Event,
         Op::Reporter,
         Op::Tick(0),
         Op::DoneFail(0),
@@ -520,7 +553,7 @@ fn ops_for(tier: Tier) -> Vec<Op> {
 fn op_from(s: &str) -> Op {
     let all = [
         Op::Add(0), Op::Add(1), Op::ReadAll(0), Op::ReadAll(1), Op::Read1(0), Op::Read1(1), Op::Read2(0), Op::Read2(1), Op::DoneOk(0), Op::DoneOk(1), Op::DoneFail(0), Op::DoneFail(1),
-        Op::Change(0), Op::Change(1), Op::Change(2), Op::ChangeCluster, Op::ChangeEndpoint, Op::ChangeManyOther, Op::Reporter, Op::Remove(0), Op::Remove(1),
+        Op::Change(0), Op::Change(1), Op::Change(2), Op::ChangeCluster, Op::ChangeEndpoint, Op::ChangeManyOther, Op::Event, Op::Reporter, Op::Remove(0), Op::Remove(1),
         Op::Tick(0), Op::Tick(1), Op::Tick(2),
     ];
     *all.iter().find(|o| format!("{:?}", o) == s).unwrap_or_else(|| panic!("bad op {}", s))
@@ -595,7 +628,9 @@ pub fn run(ctx: &Ctx) -> i32 {
     let stats = {
         let rep = std::cell::RefCell::new(&mut report);
         e2::bfs(
-            vec![vec![]],
+            // besides the initial state: established subscriptions whose attribute-change and event
+            // watermarks have diverged (either way round)
+            vec![vec![], vec![Op::Change(0), Op::Add(0), Op::ReadAll(0), Op::DoneOk(0)], vec![Op::Event, Op::Event, Op::Add(0), Op::ReadAll(0), Op::DoneOk(0)]],
             depth,
             |h: &[Op]| build(h),
             |_| ops.clone(),
@@ -658,15 +693,15 @@ pub fn run(ctx: &Ctx) -> i32 {
         return 2;
     }
     let mut ev = Evidence::new("model_checking");
-    ev.set("wire_level", json!({"executions": wire_execs, "distinct_observations": wire_obs, "outcome_classes": wire_classes, "capped": wire_capped, "rule": "real publisher + subscriber + writer: every schedule with at most 2 (thorough: 3) non-default adversary decisions (drop / duplicate / reorder a datagram between publisher and subscriber, timer first, the writer changes the attribute now) during the first 20 s, with a single-chunk and a three-chunk priming report, one and two changes; FIFO afterwards until 60 s"}))
+    ev.set("wire_level", json!({"executions": wire_execs, "distinct_observations": wire_obs, "outcome_classes": wire_classes, "capped": wire_capped, "deviation_bound_completed": (if ctx.tier == Tier::Quick { 2 } else { 3 }) - wire_capped as usize, "rule": "real publisher + subscriber + writer: every schedule with at most 2 (thorough: 3) non-default adversary decisions (drop / duplicate / reorder a datagram between publisher and subscriber, timer first, the writer changes the attribute now) during the first 20 s, with a single-chunk and a three-chunk priming report, one and two changes; FIFO afterwards until 60 s"}))
         .set("states", json!(stats.states))
         .set("transitions", json!(stats.transitions))
         .set("traces_validated_against_impl", json!(stats.transitions + quiesces.get()))
         .set("exhaustive", json!(true))
         .set("samples", json!([{"ops": ["Add(0)", "Read1(0)", "Change(0)", "Reporter", "Read2(0)", "DoneOk(0)"], "then": "quiesce: follow the table's own deadlines until every subscriber knows every current value"}]))
         .set("vacuity", json!({"quiesce_runs": quiesces.get(), "changes_inside_a_priming_report": inside.get(), "distinct_quiesce_outcomes": outcomes.borrow().len(), "max_depth": stats.max_depth}))
-        .set("rule", json!(format!("BFS depth {} over {} operations (subscribe, two-chunk report reads, report ok/fail, attribute / cluster / endpoint changes, 17 unrelated changes forcing coalescing, reporter iteration = remove-expired + report()-or-purge, unsubscribe, ticks of 1/21/41 s) on Subscriptions<2>; in every visited state two bounded-liveness runs (all further reports succeed / all fail)", depth, ops.len())));
-    ev.assume("model level: attribute reads are represented by should_report_attr decisions at read time; the wire, chunk encoding and event delivery are covered elsewhere (C14) or not at all (events)");
+        .set("rule", json!(format!("BFS depth {} over {} operations (subscribe, two-chunk report reads, report ok/fail, attribute / cluster / endpoint changes, event emission, 17 unrelated changes forcing coalescing, reporter iteration = remove-expired + report()-or-purge, unsubscribe, ticks of 1/21/41 s) on Subscriptions<2>, from the initial state and from two states with an established subscription whose change-id and event-number watermarks differ; in every visited state two bounded-liveness runs (all further reports succeed / all fail)", depth, ops.len())));
+    ev.assume("model level: attribute reads are represented by should_report_attr decisions at read time; an event is represented by its number, a report carries the event numbers (lo, hi] its context captured; the wire and chunk encoding are covered at the wire level and in C14");
     ev.assume("'eventually' is decided as: within 16 reporter iterations at the deadlines the table announces, with no further changes");
     if quiesces.get() == 0 || outcomes.borrow().len() < 2 {
         eprintln!("MACHINERY: vacuous C13 run");
